@@ -735,7 +735,14 @@ fn anm_entry(r: &mut Rng, game: &str, wild: bool, nspr: &mut i64) -> String {
     let dims: &[i64] = if wild { &[16, 256, 512, 1024, 32768, 65535, 65536, 70000] } else { &[16, 256, 512, 1024, 32768] };
     let offs: &[i64] = if wild { &[0, 1, 8, 255, 256, 65535, 65536, 100000] } else { &[0, 1, 8, 255, 256, 65535] };
     let prio = [0i64, 1, 10, 11, 255, 256, 65535, 65536, 2147483647];
-    let mut s = String::from("entry {\n    path: \"subdir/file.png\",\n    has_data: false,\n");
+    let mut s = String::from("entry {\n    path: \"subdir/file.png\",\n");
+    if r.chance(1, 3) {
+        // a generated placeholder texture: its dimensions and format live in the THTX header
+        let (w, h): (i64, i64) = if wild { (*r.pick(&[1i64, 4, 256, 65535, 65536, 60000, 100000]), *r.pick(&[1i64, 4, 256, 65535, 65536, 60000])) } else { (*r.pick(&[1i64, 2, 4, 16, 64, 100]), *r.pick(&[1i64, 2, 4, 16, 64])) };
+        s.push_str(&format!("    has_data: \"dummy\",\n    img_width: {},\n    img_height: {},\n    img_format: {},\n", w, h, r.pick(&[1i64, 3, 5, 7])));
+    } else {
+        s.push_str("    has_data: false,\n");
+    }
     s.push_str(&format!("    rt_width: {},\n    rt_height: {},\n    rt_format: 3,\n", r.pick(dims), r.pick(dims)));
     if old_header {
         s.push_str(&format!("    colorkey: {},\n", r.pick(&[0i64, 1, 0x00ff00ff, 0x7fffffff])));
@@ -828,7 +835,12 @@ fn gen_program(p: &Prof, r: &mut Rng) -> (String, String) {
         for _ in 0..n {
             if r.chance(2, 3) {
                 let t = if wild { *r.pick(&TIMES) } else if p.tool == "truecl" || p.tool == "trustd" || (p.tool == "truecl-timeline" && p.game == "th08") { *r.pick(&[0i64, 1, 100, 32767, 32768, 65536, -1, -32769, 2147483647]) } else { *r.pick(&[0i64, 1, 2, 100, 255, 256, 32767, -1, -32768]) };
-                s.push_str(&format!("{}:\n", t));
+                if r.chance(1, 4) {
+                    let d = if wild { *r.pick(&[1i64, 30000, 65535, 2147483647, 1073741824]) } else { *r.pick(&[1i64, 2, 10, 100]) };
+                    s.push_str(&format!("{}:\n+{}:\n", t, d));
+                } else {
+                    s.push_str(&format!("{}:\n", t));
+                }
             }
             let (o, sg) = r.pick(&sigs).clone();
             let args: Vec<String> = kinds(&sg).into_iter().map(|c| sig_arg(c, r, wild, narrow)).collect();
@@ -913,7 +925,12 @@ fn gen_program(p: &Prof, r: &mut Rng) -> (String, String) {
         }
         "truecl-timeline" => {
             for k in 0..(if p.game == "th06" { 1 } else { r.range(1, 2) }) {
-                src.push_str(&format!("script timeline{} {{\n{}}}\n", k, body(r)));
+                // (wild) an explicit, absurd timeline index: refused, never "filled in" up to it
+                if wild && r.chance(1, 4) {
+                    src.push_str(&format!("script {} timeline{} {{\n{}}}\n", r.pick(&[14i64, 15, 16, 255, 65536, 2000000000]), k, body(r)));
+                } else {
+                    src.push_str(&format!("script timeline{} {{\n{}}}\n", k, body(r)));
+                }
             }
             src.push_str("void sub0() {}\n");
         }
